@@ -12,15 +12,15 @@ Proof.
   { revert c Hc. apply sweep1. vm_compute. reflexivity. }
   apply andb_prop in G as [G G3]. apply andb_prop in G as [G1 G2]. apply negb_true_iff in G1, G2, G3.
   repeat split.
-  - intro Hi. assert (X : existsb (N.eqb 38) (encode_uri [c]) = true) by (apply existsb_exists; exists 38; split; [exact Hi|apply N.eqb_refl]). rewrite X in G1. discriminate.
-  - intro Hi. assert (X : existsb (N.eqb 61) (encode_uri [c]) = true) by (apply existsb_exists; exists 61; split; [exact Hi|apply N.eqb_refl]). rewrite X in G2. discriminate.
-  - intro E. rewrite E in G3. discriminate.
+  - intro Hi. assert (X : existsb (N.eqb 38) (encode_uri [c]) = true) by (apply existsb_exists; exists 38; split; [exact Hi|apply N.eqb_refl]). rewrite X in G1. discriminate G1.
+  - intro Hi. assert (X : existsb (N.eqb 61) (encode_uri [c]) = true) by (apply existsb_exists; exists 61; split; [exact Hi|apply N.eqb_refl]). rewrite X in G2. discriminate G2.
+  - intro E. rewrite E in G3. discriminate G3.
 Qed.
 Lemma enc_clean s : bytes_ok s -> ~ In 38 (encode_uri s) /\ ~ In 61 (encode_uri s).
 Proof.
   intro Hb. rewrite encode_charwise. induction s as [|c s IH]; [split; intros []|].
   inversion Hb as [|? ? Hc Hb']; subst. cbn [flat_map]. destruct (enc_char_clean c Hc) as (A & B & _). destruct (IH Hb') as [C D].
-  split; intro Hi; apply in_app_or in Hi as [Hi|Hi]; auto.
+  split; intro Hi; apply in_app_or in Hi as [Hi|Hi]; [exact (A Hi)|exact (C Hi)|exact (B Hi)|exact (D Hi)].
 Qed.
 Lemma enc_nonempty s : bytes_ok s -> s <> [] -> encode_uri s <> [].
 Proof.
